@@ -249,6 +249,7 @@ def arg_names(fn):
 
 def extract(ctx):
     g = X.GenFile(PID, [SRC_BSV, SRC_TYPES, SRC_SOLVER, SRC_IPPE])
+    assert g.lines[2].startswith('namespace '), 'GenFile header layout changed'
     g.lines.insert(2, 'import CfVerif.Spec.C15')
     g.raw('open CfVerif CfVerif.C15 CfVerif.C15.RealOps')
     g.raw('set_option linter.unusedVariables false')
